@@ -108,7 +108,10 @@ def run_group(ck, pid, init, want, cover):
                     if drift <= 3:
                         ck.note("drift: per-operator state of %r differs from the as-coded model" % body)
                 prev = None
-                for (name, s), opn in zip(snaps, [o for o in ops if IR.OPS.count(o)]):
+                for (name, s) in snaps:
+                    # the operator is read off the snapshot itself: operators that were skipped for lack of operands
+                    # leave no snapshot, so positions in the program do not line up with positions in the snapshot list
+                    opn = IR.OPNAME.get(name[3:], name[3:])
                     if name == "do_Do" and prev is not None:
                         for f in ("ctm", "dctm", "tm", "lx", "font", "size", "tc", "tw", "tz", "tl", "rise", "lw", "sc", "nc", "npath", "depth"):
                             if not IR.close(s[f], prev[f]):
